@@ -11,6 +11,7 @@ var acceptedConstructs = map[string][]string{
 	"c04.accepts.argsTrailingComma": {"f(a,);", "new f(a,);"},
 	"c04.accepts.regexpFlags":       {"x = /a/x;", "x = /a/gg;"},
 	"c04.accepts.regexpGroup":       {"x = /(?<n>a)/;"},
+	"c04.accepts.doWhileSemicolon":  {"do ; while (0) x;", "do x++; while (x < 5) y = 2;", "if (a) do ; while (0) else b;"},
 }
 
 func registerMatchers() {
